@@ -47,6 +47,13 @@ Unit-specific hooks (attributes of pygal.Ext, on top of the ones pygal.py docume
   fact_test(fn, g, t, env, kt, kf)   the truthiness test of a Boolean carrying a `fact` (see pygal.tr_test)
   except_classes           {python class name: Gallina predicate on exceptions}   (default: only `Exception`)
   exc_new(fn, node, env)   -> None | Gallina text of a freshly constructed exception (node = the operand of `raise`)
+  [srclabels] stmt_m(fn, stmt, env, cont) -> text | None   a statement only the unit can read (item assignment
+                              `obj.attr[k] = v`, ...); cont(env') is the translation of what follows
+  [srclabels] mutates_target(stmt)  -> set of local names whose object an assignment to a subscript / attribute mutates
+  [srclabels] `for a, b in <list of pairs>` (element Ty of kind "pair" with .fst / .snd): tr_for_pair
+  [srclabels] spec key "state_var": the function is translated for the final content of that local (a mutated object);
+                              a bare `return` is `return_v <its current content>` (the caller supplies the same at the
+                              fall-through end and lists the name as live)
 Function spec keys on top of pygal's: "ret" (Ty: the function returns a value), "vararg" / "kwarg" ((name, Ty): the
 function has *name / **name, handed to the Gallina function as ordinary parameters of that opaque type; only the
 unit's primitives can look at them), "gparams" (text of extra implicit binders, e.g. "{pval : Type}").
